@@ -7,7 +7,7 @@ what the reference loader reads (C14), which the driver re-evaluates on every re
 -/
 import SuccinctlyVerif.Proof.YamlRoundTrip
 namespace SV.Props.C29
-open SV SV.Yaml
+open SV SV.YamlRef
 
 /-- Full statement (not asserted): an abstract locator that returns the path of the token
 containing the offset evaluates, over the loaded documents, to the token's node. -/
